@@ -54,6 +54,8 @@ def keyname(k):
         for f in ('key', '0', 'inner'):
             if f in k[2]:
                 return keyname(k[2][f])
+    if isinstance(k, tuple) and len(k) == 3 and k[0] == 'ctor' and len(k[2]) == 1 and not k[1].startswith('core::'):
+        return keyname(k[2][0])                 # a newtype around the text (InternalString)
     return k
 
 
@@ -274,6 +276,43 @@ class PlaceInterp(RecInterp):
             return clo[1](*args)                 # a caller-supplied closure of the rule itself (the `keep` / `compare` argument of the API under evaluation)
         return super().apply(clo, args)
 
+    def type_of(self, v):
+        v = deref(v)
+        if isinstance(v, tuple) and len(v) == 3 and v[0] == 'struct':
+            return strip_generics(v[1]).split('::<')[0]
+        if isinstance(v, tuple) and len(v) >= 2 and v[0] == 'ctor':
+            p = strip_generics(v[1]).split('::<')[0]
+            if p in self.ev.facts.adts:
+                return p                                             # a unit / tuple struct: the constructor is the type
+            return p.rsplit('::', 1)[0]                             # an enum value: its type is the variant's parent
+        return None
+
+    def _from_impl(self, tgt, value, src_ty):
+        """the workspace `impl From<S> for T` that `.into()` resolves to, by target type and the kind of the value"""
+        t = strip_generics(tgt).split('::<')[0]
+        cands = [d for d in self.ev.facts.bodies if d.startswith(f'<{t} as core::convert::From<') and d.endswith('>>::from')]
+        if not cands:
+            return None
+        import re
+        norm = lambda t_: re.sub(r"'[a-z_]+ ", '', (t_ or '')).replace('mut ', '').strip()
+        src = norm(src_ty)
+
+        def arg(d, keep_ref=False):
+            a = norm(d[len(f'<{t} as core::convert::From<'):-len('>>::from')])
+            return a if keep_ref else a.replace('&', '')
+        exact = [d for d in cands if arg(d, True) == src]
+        if len(exact) == 1:
+            return self.ev.facts.body(exact[0])
+        loose = [d for d in cands if arg(d) == src.replace('&', '')]
+        if len(loose) == 1:
+            return self.ev.facts.body(loose[0])
+        v = deref(value)
+        want = 'bool' if isinstance(v, bool) else 'i64' if isinstance(v, int) else 'f64' if isinstance(v, float) else 'str' if isinstance(v, str) else self.type_of(v)
+        byk = [d for d in cands if arg(d) == want or (want == 'str' and arg(d) in ('str', 'alloc::string::String'))]
+        if byk:
+            return self.ev.facts.body(sorted(byk, key=lambda d: arg(d) != want)[0])
+        return None
+
     # -- evaluation ----------------------------------------------------------------------------------------------------------
     def val(self, e, env):
         k = e.get('k')
@@ -381,6 +420,10 @@ class PlaceInterp(RecInterp):
                 return super().val(e, env)
             raise
         recv = deref(raw)
+        if name == 'into' and not e.get('args') and self._workspace_method(e) is None:
+            body = self._from_impl((e.get('t') or '').strip(), recv, peel(rnode).get('t'))
+            if body is not None:
+                return self.apply_fn(body, [recv])
         if name == 'clone' and not e.get('args') and not isinstance(recv, (OccObj, VacObj, IterObj)) and not (isinstance(recv, tuple) and recv and recv[0] in ('rec', 'opaque', 'closure')):
             return clone_value(recv)
         special = isinstance(recv, (MapObj, OccObj, VacObj)) or (isinstance(recv, tuple) and len(recv) == 3 and recv[0] == 'ctor' and recv[2] and isinstance(recv[2][0], (OccObj, VacObj))) \
